@@ -98,11 +98,11 @@ def to_DiGraph(program):
             for _, v in op['kwargs'].items():
                 if isinstance(v, RegRefTransform):
                     dependencies |= set(v.regrefs)
-        else:
-            op['args'] = []
-            op['kwargs'] = {}
 
-        cmd = Command(name=op['op'], args=op['args'], kwargs=op['kwargs'], modes=tuple(op['modes']))
+        # an operation without arguments is left as it is in the program
+        cmd = Command(
+            name=op['op'], args=op.get('args', []), kwargs=op.get('kwargs', {}), modes=tuple(op['modes'])
+        )
 
         for q in dependencies:
             # Add cmd to the grid to the end of the line r.ind.
